@@ -46,6 +46,14 @@ func TestMain(m *testing.M) {
 
 const retry = 20 * time.Millisecond
 
+func loadInfo(text string) (*prom.ConfigInfo, error) {
+	cm := prom.NewConfigManager()
+	if err := cm.ReloadFromRaw([]byte(text)); err != nil {
+		return nil, err
+	}
+	return cm.ConfigInfo(), nil
+}
+
 func c20Config(jobs []string) string {
 	var b strings.Builder
 	b.WriteString("global:\n  scrape_interval: 15s\n  scrape_timeout: 10s\nscrape_configs:\n")
@@ -267,6 +275,7 @@ func runC20(rec *vkit.Recorder, c *c20Case) []vkit.Violation {
 	evs := append([]c20Event(nil), c.Events...)
 	sort.SliceStable(evs, func(i, j int) bool { return evs[i].AtMs < evs[j].AtMs })
 	removedWhileFailing := false
+	jobBrokenSeen := false
 	for _, e := range evs {
 		if d := time.Until(t0.Add(time.Duration(e.AtMs) * time.Millisecond)); d > 0 {
 			time.Sleep(d)
@@ -290,6 +299,27 @@ func runC20(rec *vkit.Recorder, c *c20Case) []vkit.Violation {
 				cur[e.Hash] = &incarn{born: time.Now(), no: incNo[e.Hash]}
 				push()
 			}
+		case "jobClientBroken":
+			// scrape.Manager.ApplyConfig skips a job whose HTTP client cannot be built; explorer and
+			// discovery still have the job.  Probes of its targets fail until a later reload repairs it.
+			broken := []string{}
+			for j := range jobs {
+				if j != e.Job {
+					broken = append(broken, j)
+				}
+			}
+			sort.Strings(broken)
+			if ci, err := loadInfo(c20Config(broken)); err == nil && jobs[e.Job] {
+				_ = sm.ApplyConfig(ci)
+				for _, j := range broken {
+					if ji := sm.GetJob(j); ji != nil {
+						ji.Cli = cli
+					}
+				}
+				jobBrokenSeen = true
+			}
+		case "jobClientRepaired":
+			_ = cm.ReloadFromRaw([]byte(c20Config(cfgJobs())))
 		case "dropJob":
 			if jobs[e.Job] && len(jobs) > 1 {
 				delete(jobs, e.Job)
@@ -308,6 +338,10 @@ func runC20(rec *vkit.Recorder, c *c20Case) []vkit.Violation {
 		if len(vs) > 0 {
 			return vs
 		}
+	}
+	if jobBrokenSeen {
+		// faults end before the drain phase
+		_ = cm.ReloadFromRaw([]byte(c20Config(cfgJobs())))
 	}
 	// drain: ask for every discovered target until every target that can succeed has, or the grace period ends
 	grace := time.Now().Add(5 * time.Second)
@@ -433,6 +467,9 @@ func runC20(rec *vkit.Recorder, c *c20Case) []vkit.Violation {
 	if removedWhileFailing {
 		cls = append(cls, "removed-while-failing")
 	}
+	if jobBrokenSeen {
+		cls = append(cls, "job-client-broken-for-a-while")
+	}
 	b, _ := json.Marshal(c)
 	rec.Eval(nt, vkit.Digest(string(b)), cls...)
 	return vs
@@ -462,6 +499,18 @@ func genC20(t *rapid.T) *c20Case {
 			e.Kind = "get"
 		}
 		c.Events = append(c.Events, e)
+	}
+	// the scrape manager loses a job's HTTP client for a while
+	if rapid.IntRange(0, 3).Draw(t, "jobBroken") == 0 {
+		at := 5 * rapid.IntRange(0, 8).Draw(t, "jobBroken-at")
+		j := rapid.SampledFrom([]string{"ja", "jb"}).Draw(t, "jobBroken-job")
+		c.Events = append(c.Events, c20Event{AtMs: at, Kind: "jobClientBroken", Job: j})
+		for i := 0; i < 3; i++ {
+			c.Events = append(c.Events, c20Event{AtMs: at + 5 + 5*i, Kind: "get", Hash: uint64(rapid.IntRange(1, n).Draw(t, fmt.Sprintf("jobBroken-get%d", i)))})
+		}
+		if rapid.Bool().Draw(t, "jobBroken-repair") {
+			c.Events = append(c.Events, c20Event{AtMs: at + 5*rapid.IntRange(4, 12).Draw(t, "jobBroken-repairAt"), Kind: "jobClientRepaired"})
+		}
 	}
 	// a target that leaves discovery and comes back while its failed probe waits for a retry
 	if rapid.IntRange(0, 2).Draw(t, "flap") == 0 {
